@@ -22,7 +22,8 @@ PROPERTY = "C19"
 RULE = (
     "subject x config (<=1 deviation; thorough <=2) x pattern x 1-deviation rows of the C01/C02 cell alphabets rounded to float32, "
     "forward direction on the input alphabet and inverse direction on the float32-rounded twin images; flows: log_prob rows; plus wide (32-96 feature) linear/normalisation/autoregressive layers; plus the data-dependent first training-mode call "
-    "of ActNorm (2-D, image) and BatchNorm on batches offset + spread*pattern for 5 (offset, spread) pairs up to 50 +- 0.01, followed by eval forward and inverse. "
+    "of ActNorm (2-D, image) and BatchNorm on batches offset + spread*pattern for 5 (offset, spread) pairs up to 50 +- 0.01, followed by eval forward and inverse; "
+    "plus conversion after use (a model already called in one precision, deep-copied and converted, must equal the twin converted before any call, bit for bit and in dtype). "
     "Non-trivial = the float64 twin result differs from the float32 result (rounding visible) or the row has a non-interior cell."
 )
 ASSUMPTIONS = [
@@ -178,6 +179,33 @@ def run_case(sname, cfg, pname, seed, tier, res=None, only=None):
         for cell, sym, msg in vs:
             vio.append({"key": "%s|%s|%s|%s" % (sname, sig, cell, sym), "case": {"subject": sname, "cfg": cfg, "pattern": pname, "seed": seed, "row": [float(v) for v in x], "tag": tag, "direction": direction},
                         "msg": "%s cfg=%s pattern=%s: %s" % (sname, cfg, pname, msg)})
+    if not only and jobs:
+        # conversion after use: a model that has already been called in float32 is deep-copied and converted with .double(); the copy
+        # must behave exactly like the twin that was converted before any call (no value or dtype remembered from the float32 calls),
+        # and the float64 twin converted back with .float() exactly like the float32 model
+        x0 = jobs[0][0]
+        try:
+            late64 = Caller(s, cfg, copy.deepcopy(m32).double(), dtype=torch.float64)
+            late32 = Caller(s, cfg, copy.deepcopy(m64).float(), dtype=torch.float32)
+            for late, ref, dt, what in ((late64, c64, torch.float64, "float32 calls, then .double()"), (late32, c32, torch.float32, "float64 calls, then .float()")):
+                ya, la, rawa = ref.fwd(x0[None])
+                yb, lb, rawb = late.fwd(x0[None])
+                bad = None
+                if rawb[0].dtype != dt or rawb[1].dtype != dt:
+                    bad = "returns outputs %s / logabsdet %s" % (rawb[0].dtype, rawb[1].dtype)
+                elif not (np.array_equal(ya, yb, equal_nan=True) and np.array_equal(la, lb, equal_nan=True)):
+                    bad = "differs from the model converted before any call by %.3g (outputs) / %.3g (logabsdet)" % (float(np.max(np.abs(ya - yb))), float(np.max(np.abs(la - lb))))
+                if res is not None:
+                    res["evaluations"] += 1
+                    res["states"] += 1
+                    res["traces"] += 1
+                    bump(res["outcomes"], "%s:convert-after-use:%s" % (s.kind, "violation" if bad else "ok"))
+                if bad:
+                    vio.append({"key": "%s|%s|convert-after-use|result remembers the precision of earlier calls" % (sname, sig), "case": {"subject": sname, "cfg": cfg, "pattern": pname, "seed": seed, "row": [float(v) for v in x0], "tag": "convert", "direction": "forward"},
+                                "msg": "%s cfg=%s pattern=%s: after %s the forward pass %s" % (sname, cfg, pname, what, bad)})
+        except Exception as e:
+            if res is not None:
+                bump(res["skipped"], "convert-after-use not evaluable: %s" % type(e).__name__)
     if res is not None:
         res["transitions"] += c32.calls + c64.calls
         if not res["samples"] and jobs:
@@ -380,4 +408,7 @@ def replay(case):
         return run_norm_train_case(case["norm"], tuple(case["shape"]), case["offset"], case["spread"], case["seed"], None)
     if "dist" in case:
         return [v for v in run_flow_case(case["dist"], case["cfg"], case["pattern"], case["seed"], "quick", None) if v["case"]["row_index"] == case["row_index"]]
+    if case.get("tag") == "convert":
+        # needs the float32 calls made before the conversion: re-run the whole case and keep this finding
+        return [v for v in run_case(case["subject"], case["cfg"], case["pattern"], case["seed"], "quick", None) if v["case"].get("tag") == "convert"]
     return run_case(case["subject"], case["cfg"], case["pattern"], case["seed"], "quick", None, only=case)
